@@ -163,6 +163,10 @@ unsafe impl Sharable for Leaf {
 }
 
 unsafe impl OwnedLockable for Leaf {}
+// `Item` may wrap shared references, so this is a promise made by the scenario generator, not by the
+// type: the constructors that rely on ownership for duplicate-freedom (`new`, `From`, `collect()`) are
+// only ever called on member lists the specification has derived to be duplicate-free.
+unsafe impl OwnedLockable for Item {}
 
 // -------------------------------------------------------------------- items
 
